@@ -74,7 +74,7 @@ class _FutureCachedPropertyValue(Generic[R, T]):
     produced, all tasks are unblocked and given the same, single value.
     """
 
-    __slots__ = ("_func", "_instance", "_name", "_lock")
+    __slots__ = ("_func", "_instance", "_name", "_lock", "_cached")
 
     def __init__(
         self,
@@ -87,6 +87,8 @@ class _FutureCachedPropertyValue(Generic[R, T]):
         self._instance = instance
         self._name = name
         self._lock = lock
+        # the value most recently cached on the instance by this placeholder
+        self._cached: "Optional[AwaitableValue[R]]" = None
 
     def __await__(self) -> Generator[None, None, R]:
         return self._await_impl().__await__()
@@ -122,7 +124,14 @@ class _FutureCachedPropertyValue(Generic[R, T]):
 
     async def _get_attribute(self) -> R:
         value = await self._func(self._instance)
-        self._instance.__dict__[self._name] = AwaitableValue(value)
+        # Only cache the value if the attribute still belongs to this placeholder:
+        # it is the placeholder itself or a value that an overlapping run of it cached.
+        # If the attribute was deleted meanwhile, the computation started before the
+        # deletion and must not replace whatever was (or will be) computed after it.
+        stored = self._instance.__dict__.get(self._name)
+        if stored is self or (stored is not None and stored is self._cached):
+            self._cached = AwaitableValue(value)
+            self._instance.__dict__[self._name] = self._cached
         return value
 
     def __repr__(self) -> str:
